@@ -44,6 +44,8 @@ class Check:
         self.notes = []
         self.extra = {}
         self.more_instances = {}
+        self._struct_seen = {}
+        self._known_struct = []
         self._replay_tried = set()
 
     # ----------------------------------------------------------------- registration
@@ -79,7 +81,13 @@ class Check:
         self.covers.append(Obl(label, func, 0, hyps, z3.BoolVal(False), kind="cover"))
 
     def struct(self, label, ok, detail="", meta=None):
-        self.structural.append((label, bool(ok), detail, meta or {}))
+        meta = meta or {}
+        key = (label, bool(ok), str(meta.get("site")), str(meta.get("attr")), detail if not ok else "")
+        if key in self._struct_seen:
+            self._struct_seen[key] += 1
+            return
+        self._struct_seen[key] = 1
+        self.structural.append((label, bool(ok), detail, meta))
 
     # ----------------------------------------------------------------- discharge
     def discharge(self, opts=None):
@@ -201,9 +209,14 @@ class Check:
                     self.undecided.append("obligation %s (%s:%s) undecided: %s" % (o.label, o.func, o.line, str(o.info)[:120]))
                     continue
                 self.handle_refuted(o, mine)
+        seen_struct = set()
         for label, ok, detail, meta in self.structural:
             if ok:
                 continue
+            skey = (label, str(meta.get("site")), str(meta.get("attr")))
+            if skey in seen_struct:
+                continue
+            seen_struct.add(skey)
             hit = None
             for f in mine:
                 if f.get("obligation") == label or (f.get("obligation", "").endswith("*") and label.startswith(f["obligation"][:-1])):
@@ -212,6 +225,7 @@ class Check:
                         break
             if hit:
                 self.known_hits.append((hit["id"], hit["what"]))
+                self._known_struct.append(skey)
             else:
                 path = self.write_replay(label, {"obligation": label, "kind": "structural", "detail": detail, "meta": _jsonable(meta)})
                 self.violations.append((label, path, detail, meta.get("no_input", True)))
@@ -346,7 +360,7 @@ class Check:
         wall = time.time() - self.t0
         n_obl = len(self.obls) + len(self.structural)
         disc = sum(1 for o in self.obls if o.verdict in ("proved",)) + sum(1 for s in self.structural if s[1])
-        known_disc = sum(1 for o in self.obls if o.verdict == "known-finding")
+        known_disc = sum(1 for o in self.obls if o.verdict == "known-finding") + len(set(self._known_struct))
         by_backend, solver_s = {}, {}
         for o in self.obls + self.twins + self.covers:
             by_backend[o.backend] = by_backend.get(o.backend, 0) + 1
